@@ -24,6 +24,10 @@ HeapMsgs == << Msg(1, ChainAll), Msg(2, << Rep("SA"), Rep("KE"), Rep("NONCE") >>
                                                    Prop(1, 1, 8, << TrTV(1, 12, 14, 256), TrNone(2, 5), TrNone(3, 2), TrNone(4, 14) >>) >>],
                          [k |-> "CP", cft |-> 1, attrs |-> << CA(8, << >>), CA(3, D(4, 6)), CA(3, D(4, 6)), CA(8, << >>), CA(3, D(4, 7)) >>],
                          Rep("N"), Rep("N"), Rep("CERTREQ"), Rep("CERTREQ") >>),
+               \* exchange type x flags x Notify types with protocol meaning (an encoder that knows about cookies still leaves the list alone)
+               Msg(1, << Rep("SA"), Rep("KE"), Rep("NONCE"), Nt(16390, 20), Nt(16388, 20), Nt(14, 0) >>),
+               [Msg(1, << Nt(16388, 20), Nt(16390, 20), Rep("NONCE") >>) EXCEPT !.flags = 32, !.rspi = D(8, 3)],
+               Msg(1, << Nt(17, 2), Nt(16390, 8) >>),
                Msg(6, << [k |-> "IDi", idt |-> 2, data |-> Edge("trail0", 9, 1)], [k |-> "NONCE", data |-> Edge("lead00", 16, 2)], [k |-> "V", data |-> Edge("zeros", 8, 3)],
                          [k |-> "EAP", eap |-> [code |-> 2, id |-> 128, m |-> "identity", data |-> Edge("trail00", 9, 4)]],
                          [k |-> "TSi", sel |-> << SelA(8, Zeros(10) \o << 255, 255, 10, 0, 0, 1 >>, Zeros(10) \o << 255, 255, 10, 0, 0, 9 >>), SelA(7, Zeros(4), Const(4, 255)) >>] >>) >>
@@ -56,7 +60,7 @@ Steps(s, m, decoded) ==
                              IF Encodable(m2) THEN [panic |-> FALSE, err |-> FALSE, wire |-> EncMsg(Norm(m2)), insame |-> TRUE, heldsame |-> TRUE, outfresh |-> TRUE]
                                               ELSE [panic |-> FALSE, insame |-> TRUE, heldsame |-> TRUE])
                    [] o = "protect" -> Step("heap_protect", "C20", FALSE, [suite |-> (Len(s) % 9) + 1, role |-> (Len(s) % 2 = 0)],
-                                            [panic |-> FALSE, err |-> FALSE, srchdr |-> HdrOf(m), orig |-> Norm(m).payloads, held |-> Norm(m).payloads, nsk |-> 1, outfresh |-> TRUE])
+                                            [panic |-> FALSE, err |-> FALSE, srchdr |-> HdrOf(m), orig |-> Norm(m).payloads, held |-> Norm(m).payloads, nsk |-> 1, outfresh |-> TRUE, skplain |-> TRUE])
                    [] OTHER -> Step("heap_observe", "C20", FALSE, [x |-> 0],
                                     IF decoded THEN [panic |-> FALSE, dmsg |-> DecMsg(m).payloads, orig |-> Norm(m).payloads, held |-> Norm(m).payloads, srchdr |-> HdrOf(m), heldsame |-> TRUE, insame |-> TRUE, protsame |-> TRUE]
                                                ELSE [panic |-> FALSE, orig |-> Norm(m).payloads, held |-> Norm(m).payloads, srchdr |-> HdrOf(m), heldsame |-> TRUE, insame |-> TRUE, protsame |-> TRUE])
